@@ -54,6 +54,9 @@ THEOREMS = [P + n for n in [
     "expression_keys_are_content_keys", "rename_via_api_fresh", "find_via_api_transparent", "stale_hash_witness",
     "generated_rename_invalidates_hash",
     # the real constructor loop refines ctorFlat; helper laws
+    "find_three_outcomes", "find_raise_dependence", "store_misses_hides_ambiguity_witness", "generated_find_cache_policy_ok",
+    "generated_schema_readers_are_model_operations", "match_depth_false_partial", "match_depth_false_nonuniform_witness",
+    "copy_frame", "copy_independent", "copy_is_constructor", "empty_refines",
     "constructor_refines_flat", "full_refines_fresh_from_raw_constructor", "raw_constructor_answers_eq_incremental",
     "nested_get_set_same", "nested_get_set_other", "dict_depth_nested_set", "flatten_after_set_mem",
 ]]
@@ -245,6 +248,59 @@ def find_cache_layout(cls):
     return lay_get, reads
 
 
+def find_serves_cached_none(cls):
+    """is a cached `None` served (policy "store misses") or recomputed (`if schema is None:` — "store hits only")?"""
+    fn = _fn(cls, "find")
+    for node in ast.walk(fn):
+        if isinstance(node, ast.If) and any(isinstance(c, ast.Call) and isinstance(c.func, ast.Attribute) and c.func.attr == "find"
+                                             for c in ast.walk(node)):
+            t = node.test
+            if isinstance(t, ast.Compare) and len(t.ops) == 1 and isinstance(t.ops[0], ast.Is) and isinstance(t.comparators[0], ast.Constant) \
+                    and t.comparators[0].value is None and isinstance(t.left, ast.Name):
+                return False
+            if isinstance(t, ast.Compare) and len(t.ops) == 1 and isinstance(t.ops[0], ast.NotIn):
+                return True
+            raise Shape(f"find: unrecognised guard around the uncached lookup: {ast.unparse(t)}")
+    raise Shape("find: the uncached lookup is not guarded by a cache test")
+
+
+SCHEMA_READERS = ["sqlglot/optimizer/*.py", "sqlglot/lineage.py", "sqlglot/planner.py", "sqlglot/executor/__init__.py", "sqlglot/executor/python.py"]
+METHOD_CTORS = {"column_names": "columnNames", "get_column_type": "getColumnType", "has_column": "hasColumn", "find": "find",
+                "add_table": "addTable", "empty": "empty", "dialect": "dialect", "supported_table_args": "supportedTableArgs",
+                "copy": "copy", "get_udf_type": "getUdfType"}
+
+
+def schema_call_sites(tree):
+    """which members of the Schema API every reader module touches (on a name / attribute called `schema`)"""
+    import glob
+
+    members = set()
+    for cls in [n for n in tree.body if isinstance(n, ast.ClassDef) and n.name in ("Schema", "AbstractMappingSchema", "MappingSchema")]:
+        for n in ast.walk(cls):
+            if isinstance(n, ast.FunctionDef):
+                members.add(n.name)
+            if isinstance(n, ast.Attribute) and isinstance(n.ctx, ast.Store) and isinstance(n.value, ast.Name) and n.value.id == "self":
+                members.add(n.attr)
+    if not {"column_names", "get_column_type", "find", "mapping"} <= members:
+        raise Shape("Schema API members not found")
+    out = []
+    files = []
+    for pat in SCHEMA_READERS:
+        files += glob.glob(os.path.join(REPO, pat))
+    for f in sorted(set(files)):
+        used = set()
+        for n in ast.walk(ast.parse(open(f, encoding="utf-8").read())):
+            if isinstance(n, ast.Attribute) and n.attr in members:
+                v = n.value
+                if (isinstance(v, ast.Name) and v.id in ("schema", "_schema")) or (isinstance(v, ast.Attribute) and v.attr in ("schema", "_schema")):
+                    used.add(n.attr)
+        if used:
+            out.append((os.path.relpath(f, REPO), sorted(used)))
+    if not out:
+        raise Shape("no reader of the Schema API found")
+    return out
+
+
 def table_rename_keeps_hash(tree, cls):
     """does `_normalize_table` (or the helpers it renames parts with) write `node.args[...] = …` directly, i.e.
     outside the hash-invalidating set / replace API?"""
@@ -311,6 +367,8 @@ DEFAULT_LAYOUT = {
     "type": (["tyStr"], ["tyStr", "dialect"]),
     "find": (["table", "ensure"], ["table", "raise", "ensure"]),
     "rename_keeps_hash": True,
+    "serves_none": True,
+    "call_sites": [("?", ["?"])],
 }
 
 
@@ -323,7 +381,8 @@ def translate(chk: Check) -> str:
         chk.broken.append({"kind": "translator", "what": "C18 translator: structure changed: class MappingSchema not found"})
     else:
         for key, fn in (("policy", eviction_policy), ("name", name_cache_layout), ("table", table_cache_layout), ("type", type_cache_layout),
-                        ("find", find_cache_layout), ("rename_keeps_hash", lambda c: table_rename_keeps_hash(tree, c))):
+                        ("find", find_cache_layout), ("rename_keeps_hash", lambda c: table_rename_keeps_hash(tree, c)),
+                        ("serves_none", find_serves_cached_none), ("call_sites", lambda c: schema_call_sites(tree))):
             try:
                 lay[key] = fn(cls)
             except Shape as e:
@@ -333,6 +392,13 @@ def translate(chk: Check) -> str:
     chk.cov["eviction_policy"] = lay["policy"]
     chk.cov["cache_key_layouts"] = {k: {"key": lay[k][0], "reads": lay[k][1]} for k in ("name", "table", "type", "find")}
     chk.cov["table_rename_keeps_hash"] = lay["rename_keeps_hash"]
+    chk.cov["find_serves_cached_none"] = lay["serves_none"]
+    chk.cov["schema_call_sites"] = {m: ms for m, ms in lay["call_sites"]}
+
+    def meth(m):
+        return "." + METHOD_CTORS[m] if m in METHOD_CTORS else f".other {json.dumps(m)}"
+
+    sites = ", ".join(f"({json.dumps(m)}, [{', '.join(meth(x) for x in ms)}])" for m, ms in lay["call_sites"])
 
     def ll(xs):
         return "[" + ", ".join("." + x for x in xs) + "]"
@@ -352,6 +418,8 @@ def translate(chk: Check) -> str:
         f"def findCacheKey : List FField := {ll(lay['find'][0])}\n"
         f"def findCacheReads : List FField := {ll(lay['find'][1])}\n"
         f"def tableRenameKeepsHash : Bool := {'true' if lay['rename_keeps_hash'] else 'false'}\n"
+        f"def findServesCachedNone : Bool := {'true' if lay['serves_none'] else 'false'}\n"
+        f"def schemaCallSites : List (String × List SchemaMethod) := [{sites}]\n"
         "end SqlglotModel.Generated.C18\n"
     )
 
@@ -477,6 +545,10 @@ class Real:
         self.visible = visible
         self.pool: dict = {}
         self.ctor_error = None
+        self.world: list = []
+        self.cur = 0
+        self.deep_copy = False  # diagnostic: copy() over a deep copy of the mapping
+        self.md_only_matching = False  # match_depth=False only where the table has the schema's depth (else the default)
         vis = None if visible is None else nested(visible, leaf=lambda cols: set(cols))
         if raw:
             # raw (un-normalized) initial mapping through the public constructor; keys rendered in the dialect
@@ -491,6 +563,17 @@ class Real:
             # the initial mapping is given already normalized: construct without renormalising
             self.s = MappingSchema(nested(init), visible=vis, dialect=dialect, normalize=False)
             self.s.normalize = normalize
+
+    @property
+    def s(self):
+        return self.world[self.cur]
+
+    @s.setter
+    def s(self, v):
+        if self.world:
+            self.world[self.cur] = v
+        else:
+            self.world.append(v)
 
     def fresh(self):
         """MappingSchema(final mapping): same configuration, nothing cached"""
@@ -533,6 +616,25 @@ class Real:
         s = schema or self.s
         kind = op["op"]
         try:
+            if kind == "copy":
+                _, _, MappingSchema, *_ = sg()
+                from sqlglot.schema import ensure_schema
+
+                if ensure_schema(s) is not s:
+                    return "err internal:ensure_schema rebuilt an existing Schema"
+                if self.deep_copy:
+                    c = MappingSchema(copy.deepcopy(s.mapping), visible=copy.deepcopy(s.visible), dialect=s.dialect, normalize=s.normalize)
+                elif op.get("how") == "from":
+                    c = MappingSchema.from_mapping_schema(s)
+                else:
+                    c = s.copy()
+                self.world.append(c)
+                return "ok"
+            if kind == "use":
+                self.cur = op["i"] % len(self.world)
+                return "ok"
+            if kind == "empty":
+                return "bool " + ("true" if s.empty else "false")
             if kind == "find":
                 r = s.find(self.table_obj(op["table"], op.get("reuse", False)), raise_on_missing=op["raise"], ensure_data_types=op["ensure"])
                 return "none" if r is None else "found " + show_cols(r)
@@ -551,7 +653,10 @@ class Real:
                     cm = None
                 else:
                     cm = {ident_sql(c[0], c[1], dd): ty for c, ty in op["cols"]}
-                s.add_table(table, cm, dialect=d, normalize=n)
+                md = op.get("md", True)
+                if not md and self.md_only_matching and not s.empty and len(op["table"]) != s.depth():
+                    md = True
+                s.add_table(table, cm, dialect=d, normalize=n, match_depth=md)
                 return "ok"
             if kind == "opt":
                 # an optimizer caller: qualify + annotate_types read the schema through column_names / get_column_type
@@ -613,9 +718,16 @@ def rand_cols(rng, ascii_only=True):
     return [[rand_ident(rng, COLS, ascii_only), rng.choice(TYPES)] for _ in range(k)]
 
 
-def rand_op(rng, depth, dialects, ascii_only=True, p_add=0.33, p_dialect=0.25, visible=False, p_opt=0.0):
+def rand_op(rng, depth, dialects, ascii_only=True, p_add=0.33, p_dialect=0.25, visible=False, p_opt=0.0, p_copy=0.0):
     r = rng.random()
     op: dict = {}
+    if p_copy and rng.random() < p_copy:
+        r0 = rng.random()
+        if r0 < 0.35:
+            return {"op": "copy", "how": rng.choice(["copy", "from"]), "table": []}
+        if r0 < 0.85:
+            return {"op": "use", "i": rng.randrange(4), "table": []}
+        return {"op": "empty", "table": []}
     if p_opt and rng.random() < p_opt:
         k = rng.choice([0, 1, 2])
         return {"op": "opt", "table": rand_table(rng, depth, True, ascii_only), "validate": rng.random() < 0.7,
@@ -625,6 +737,8 @@ def rand_op(rng, depth, dialects, ascii_only=True, p_add=0.33, p_dialect=0.25, v
         # mostly the right depth; sometimes wrong (must raise the depth error and change nothing)
         op["table"] = rand_table(rng, depth, partial_ok=rng.random() < 0.12, ascii_only=ascii_only)
         op["cols"] = rand_cols(rng, ascii_only)
+        if rng.random() < 0.15:
+            op["md"] = False  # match_depth=False
         # column_mapping forms: dict (default), the "a: INT, b: TEXT" string, None
         r2 = rng.random()
         if r2 < 0.2 and op["cols"]:
@@ -815,7 +929,13 @@ def init_line(h) -> str:
                        "self": dref(None, d), "visible": vis})
 
 
-def to_model_line(op, default_dialect, default_norm):
+def to_model_line(op, default_dialect, default_norm, cur=0):
+    if op["op"] == "copy":
+        return json.dumps({"op": "copy", "normalize": default_norm})
+    if op["op"] == "use":
+        return json.dumps({"op": "use", "i": cur})
+    if op["op"] == "empty":
+        return json.dumps({"op": "empty"})
     if op["op"] == "find":
         return json.dumps({"op": "find", "table": op["table"], "raise": op["raise"], "ensure": op["ensure"]})
     n = op.get("norm_arg")
@@ -921,7 +1041,10 @@ def histories(chk: Check, dialects):
                 # instance are the SAME cache-key component (known finding C18-dialect-settings-identity; the model
                 # assumes that a dialect's identity determines its settings) — left to the search oracle
                 few = [x for x in few if x != "mysql"]
-            ops = [rand_op(rng, depth, few, visible=visible is not None) for _ in range(rng.randint(2, max_len))]
+            ops = [rand_op(rng, depth, few, visible=visible is not None, p_copy=0.07) for _ in range(rng.randint(2, max_len))]
+            # copy() / from_mapping_schema share (parts of) the nested dict unless the constructor re-normalises it
+            # (known finding C18-copy-shares-mapping): in the model comparison only the independent cases
+            ops = [o for o in ops if o["op"] != "copy" or norm or (depth == 1 and o.get("how") == "copy")]
         finally:
             SHARE_NAMES[0] = False
         out.append((d, norm, init, ops, raw, visible))
@@ -954,6 +1077,7 @@ def correspond(chk: Check) -> list:
     for hi, h in enumerate(hs):
         d, norm, init, ops, raw, visible = h
         real = Real(init, d, norm, raw=raw, visible=visible)
+        real.md_only_matching = True  # Properties.C18.match_depth_false_partial: the specified part of match_depth=False
         lines.append(init_line(h))
         expect.append(real.ctor_error or "ok")
         if real.ctor_error:
@@ -961,8 +1085,8 @@ def correspond(chk: Check) -> list:
         where.append((hi, -1))
         chk.count("init:" + ("raw-constructor" if raw else "normalized") + ("+visible" if visible is not None else ""))
         for oi, op in enumerate(ops):
-            lines.append(to_model_line(op, d, norm))
             r = real.apply(op)
+            lines.append(to_model_line(op, d, norm, real.cur))
             expect.append(r)
             where.append((hi, oi))
             chk.count("op:" + op["op"] + ("@dialect" if op.get("dialect_arg") else ""))
@@ -1009,6 +1133,10 @@ def diagnose(h) -> str:
         return "type-cache-dialect"  # gone as soon as entries made under another dialect are not reused
     if oracle_history(h, type_cache_off=True) is None:
         return "type-cache"
+    if any(o.get("md") is False for o in h[3]) and oracle_history(h, md_only_matching=True) is None:
+        return "match-depth-false-nonuniform"  # needs an add_table(match_depth=False) with another number of parts
+    if any(o["op"] == "copy" for o in h[3]) and oracle_history(h, deep_copy=True) is None:
+        return "copy-shares-mapping"  # gone when copy() / from_mapping_schema get their own nested dicts
     try:
         with settings_aware_dialect_equality():
             if oracle_history(h) is None:
@@ -1018,17 +1146,21 @@ def diagnose(h) -> str:
     return "other"
 
 
-def oracle_history(h, type_cache_off=False):
+def oracle_history(h, type_cache_off=False, deep_copy=False, md_only_matching=False):
     """Returns None if the property holds on this history, else (index, description)."""
     d, norm, init, ops, raw, visible = h
     real = Real(init, d, norm, raw=raw, visible=visible)
     adds_only = Real(init, d, norm, raw=raw, visible=visible)
+    real.deep_copy = adds_only.deep_copy = deep_copy
+    real.md_only_matching = adds_only.md_only_matching = md_only_matching
     if real.ctor_error and real.ctor_error.startswith("err internal"):
         return 0, f"constructor leaked {real.ctor_error}"
     incremental = None
     if raw and not real.ctor_error:
         # the same registrations made one by one through add_table on an empty schema
         incremental = Real([], d, norm, raw=True, visible=visible)
+        incremental.deep_copy = deep_copy
+        incremental.md_only_matching = md_only_matching
         for path, cols in init:
             r0 = incremental.apply({"op": "add", "table": path, "as_str": True, "cols": cols})
             if r0 != "ok":
@@ -1049,7 +1181,7 @@ def oracle_history(h, type_cache_off=False):
         if type_cache_off_now:
             for x in schemas:
                 x.s._type_mapping_cache.clear()
-        if op["op"] == "add":
+        if op["op"] in ("add", "copy", "use"):
             r1 = real.apply(op)
             r2 = adds_only.apply(op)
             if incremental is not None:
@@ -1058,7 +1190,7 @@ def oracle_history(h, type_cache_off=False):
                 return i, f"add_table leaked {r1}"
             if r1 != r2:
                 return i, f"add_table outcome depends on earlier lookups: {r1} vs {r2}"
-            if r1 == "ok":
+            if r1 == "ok" and op["op"] == "add":
                 # "a table becomes visible as soon as it is added"
                 vis_now = real.visible_now(op)
                 if vis_now:
@@ -1107,8 +1239,8 @@ def shrink(h):
                 break
     # drop optional decorations
     for o in ops:
-        for k in ("dialect_arg", "norm_arg", "reuse", "ov"):
-            if k in o and o[k] not in (None, False):
+        for k in ("dialect_arg", "norm_arg", "reuse", "ov", "md"):
+            if k in o and (o[k] not in (None, False) or k == "md"):
                 v = o.pop(k)
                 if not bad(init, ops):
                     o[k] = v
@@ -1133,7 +1265,7 @@ def skeleton(h):
     def tk(t):
         return "/".join("q" if q else "id" for _, q in t)
 
-    return (";".join(f"{o['op']}({tk(o['table'])})" + ("@d" if o.get("dialect_arg") else "") for o in ops)
+    return (";".join(f"{o['op']}({tk(o['table'])})" + ("@d" if o.get("dialect_arg") else "") + ("!md" if o.get("md") is False else "") for o in ops)
             + f"|init={len(init)}" + ("|raw" if raw else "") + ("|visible" if visible is not None else ""))
 
 
@@ -1217,7 +1349,7 @@ def search(chk: Check, hints: list, budget_s: float) -> None:
             # half of the histories use one dialect throughout (per-call overrides of the type parser are a known finding)
             p_dialect = 0.25 if rng.random() < 0.5 else 0.0
             ops = [rand_op(rng, depth, dialects if rng.random() < 0.5 else [d or "duckdb"], ascii_only=ascii_only, p_dialect=p_dialect,
-                           visible=visible is not None, p_opt=0.08) for _ in range(rng.randint(2, 30))]
+                           visible=visible is not None, p_opt=0.08, p_copy=0.07) for _ in range(rng.randint(2, 30))]
         finally:
             SHARE_NAMES[0] = False
         consider((d, norm, init, ops, raw, visible))
